@@ -44,7 +44,9 @@ SEEDS = {
  'C20-dup-hash-cache': ('C20/1', 'C20', '-scan-for-duplicates with three equal-size files: first differs, second and third identical, breadth-first order', ['C20']),
  'C20-symlink-component-continue': ('C20/2', 'C20', 'Rock Ridge symlink whose SL record fills up exactly between two path components (first component 125..129 bytes)', ['C20', 'C08']),
 }
-only = sys.argv[1:] 
+only = sys.argv[1:]
+if only == ['--collect']:
+    SEEDS = {}
 out = {}
 for sid, (inc, prop, needs, checks) in sorted(SEEDS.items()):
     if only and sid not in only:
@@ -70,4 +72,11 @@ for sid, (inc, prop, needs, checks) in sorted(SEEDS.items()):
             'how_to_rerun': 'tools/seedtest.sh seeded/%s/patch.diff quick %s' % (sid, ' '.join(checks))}
     json.dump(meta, open(os.path.join(dst, 'meta.json'), 'w'), indent=1)
     print(sid, dict((c, r['reported']) for c, r in res.items()), flush=True)
-json.dump(out, open(os.path.join(HERE, 'seeded', 'MATRIX.json'), 'w'), indent=1)
+# MATRIX.json is rebuilt from every seeded/<id>/meta.json, so partial runs do not lose entries
+allm = {}
+for sid in sorted(os.listdir(os.path.join(HERE, 'seeded'))):
+    mp = os.path.join(HERE, 'seeded', sid, 'meta.json')
+    if os.path.exists(mp):
+        m = json.load(open(mp))
+        allm[sid] = {'property': m['breaks_property'], 'needs': m['needs_to_manifest'], 'checks': m['checks_run'], 'first_violation': m.get('first_violation', {})}
+json.dump(allm, open(os.path.join(HERE, 'seeded', 'MATRIX.json'), 'w'), indent=1)
